@@ -26,15 +26,69 @@ type c10Case struct {
 	PatchForm string   `json:"patch_form"` // absent | unnamed | named | meta | dot | blank
 	FileForms []string `json:"file_forms"` // forms under which the file imports c10Path, in order: unnamed | nm | other | dot | blank | mv
 	Layout    string   `json:"layout"`
-	Pkg       string   `json:"pkg"`            // absent | same | different | near-misses, see c10PkgNames
-	Body      string   `json:"body,omitempty"` // "" expr->expr | expr-to-stmts | stmts | decl
-	LineKind  string   `json:"line_kind"`      // context | minus
-	Second    string   `json:"second"`         // none | satisfied | unsatisfied | wrongform
+	Pkg       string   `json:"pkg"`                  // absent | same | different | near-misses, see c10PkgNames
+	Body      string   `json:"body,omitempty"`       // "" expr->expr | expr-to-stmts | stmts | decl
+	PathStyle string   `json:"path_style,omitempty"` // "" plain | gopkg | slashv | goprefix: the guarded path (its last element is not the package name)
+	Spelling  string   `json:"spelling,omitempty"`   // "" | raw | escaped: how the FILE spells the guarded path literal
+	LineKind  string   `json:"line_kind"`            // context | minus
+	Second    string   `json:"second"`               // none | satisfied | unsatisfied | wrongform
 	// Extra unrelated imports (random part).
 	Extra []string `json:"extra,omitempty"`
 }
 
+// c10GuardedPath returns the guarded import path and the package name a tool
+// would guess for it.
+func c10GuardedPath(style string) (path, guess string) {
+	switch style {
+	case "gopkg":
+		return "gopkg.in/guarded.v2", "guarded"
+	case "slashv":
+		return "example.com/guarded/v3", "guarded"
+	case "goprefix":
+		return "example.com/go-guarded", "guarded"
+	}
+	return c10Path, "p"
+}
+
+// c10Spell writes an import path literal the way the case asks for.
+func c10Spell(path, spelling string) string {
+	switch spelling {
+	case "raw":
+		return "`" + path + "`"
+	case "escaped":
+		i := len(path) / 2
+		return "\"" + path[:i] + fmt.Sprintf("\\x%02x", path[i]) + path[i+1:] + "\""
+	}
+	return fmt.Sprintf("%q", path)
+}
+
 func c10ImportLine(form, path string) string {
+	return c10ImportLineSpelled(form, path, "", "")
+}
+
+func c10ImportLineSpelled(form, path, spelling, guess string) string {
+	lit := c10Spell(path, spelling)
+	switch form {
+	case "guess":
+		// explicitly named with the name the package has anyway
+		return guess + " " + lit
+	case "unnamed":
+		return lit
+	case "nm":
+		return "nm " + lit
+	case "other":
+		return "other " + lit
+	case "dot":
+		return ". " + lit
+	case "blank":
+		return "_ " + lit
+	case "mv":
+		return "mv " + lit
+	}
+	return ""
+}
+
+func c10ImportLineOld(form, path string) string {
 	switch form {
 	case "unnamed":
 		return fmt.Sprintf("%q", path)
@@ -90,6 +144,7 @@ var c10BodyText = map[string]string{
 
 // c10Build renders the patch and the file.
 func c10Build(cs *c10Case) (patch, file string) {
+	c10Path, guess := c10GuardedPath(cs.PathStyle)
 	var p strings.Builder
 	p.WriteString("@@\n")
 	if cs.PatchForm == "meta" {
@@ -125,7 +180,7 @@ func c10Build(cs *c10Case) (patch, file string) {
 	// file
 	var specs []string
 	for _, f := range cs.FileForms {
-		specs = append(specs, c10ImportLine(f, c10Path))
+		specs = append(specs, c10ImportLineSpelled(f, c10Path, cs.Spelling, guess))
 	}
 	switch cs.Second {
 	case "satisfied":
@@ -248,7 +303,7 @@ func evalC10(cs *c10Case) (sig, msg string, applies bool) {
 		return "apply-error", fmt.Sprintf("Apply fails: %s\npatch:\n%s\nfile:\n%s", r.ApplyErr, patch, file), want
 	}
 	got := bytes.Contains(r.Out, []byte("tgq(1)"))
-	desc := fmt.Sprintf("patch form %s (%s line), file imports the path as %v, layout %s, package clause %s, second guard %s, body %q", cs.PatchForm, cs.LineKind, cs.FileForms, cs.Layout, cs.Pkg, cs.Second, cs.Body)
+	desc := fmt.Sprintf("patch form %s (%s line), file imports the path as %v (path style %q, literal spelled %q), layout %s, package clause %s, second guard %s, body %q", cs.PatchForm, cs.LineKind, cs.FileForms, cs.PathStyle, cs.Spelling, cs.Layout, cs.Pkg, cs.Second, cs.Body)
 	switch {
 	case want && !got:
 		multi := ""
@@ -272,12 +327,15 @@ var (
 	c10FileSets   = [][]string{
 		{}, {"unnamed"}, {"nm"}, {"other"}, {"dot"}, {"blank"}, {"mv"},
 		{"unnamed", "nm"}, {"nm", "unnamed"}, {"nm", "other"}, {"other", "nm"}, {"blank", "unnamed"}, {"unnamed", "blank"}, {"dot", "nm"}, {"other", "dot"},
+		{"guess"}, {"guess", "unnamed"}, {"nm", "guess"},
 	}
-	c10Layouts = []string{"singles", "group", "group-among", "two-blocks", "singles-among", "after-unrelated-group", "first-then-group", "reversed-group"}
-	c10Pkgs    = []string{"absent", "same", "different", "file-test", "guard-test", "both-test", "guard-prefix", "guard-longer", "case"}
-	c10Bodies  = []string{"", "expr-to-stmts", "stmts", "decl"}
-	c10Kinds   = []string{"context", "minus"}
-	c10Seconds = []string{"none", "satisfied", "unsatisfied", "wrongform"}
+	c10Styles    = []string{"", "gopkg", "slashv", "goprefix"}
+	c10Spellings = []string{"", "raw", "escaped"}
+	c10Layouts   = []string{"singles", "group", "group-among", "two-blocks", "singles-among", "after-unrelated-group", "first-then-group", "reversed-group"}
+	c10Pkgs      = []string{"absent", "same", "different", "file-test", "guard-test", "both-test", "guard-prefix", "guard-longer", "case"}
+	c10Bodies    = []string{"", "expr-to-stmts", "stmts", "decl"}
+	c10Kinds     = []string{"context", "minus"}
+	c10Seconds   = []string{"none", "satisfied", "unsatisfied", "wrongform"}
 )
 
 func c10Record(cs *c10Case, applies bool) {
@@ -286,7 +344,7 @@ func c10Record(cs *c10Case, applies bool) {
 	if applies {
 		cl = "expect:applies"
 	}
-	c.Case(evid.Hash(fmt.Sprint(*cs)), true, cl, "patch-form:"+cs.PatchForm, "layout:"+cs.Layout, "pkg:"+cs.Pkg, "body:"+cs.Body, "second:"+cs.Second, fmt.Sprintf("file-specs:%d", len(cs.FileForms)))
+	c.Case(evid.Hash(fmt.Sprint(*cs)), true, cl, "patch-form:"+cs.PatchForm, "layout:"+cs.Layout, "pkg:"+cs.Pkg, "body:"+cs.Body, "path-style:"+cs.PathStyle, "spelling:"+cs.Spelling, "second:"+cs.Second, fmt.Sprintf("file-specs:%d", len(cs.FileForms)))
 	if c.WantSample() {
 		p, f := c10Build(cs)
 		c.Sample(map[string]any{"case": cs, "patch": p, "file": f, "expected_applies": applies})
@@ -296,30 +354,40 @@ func c10Record(cs *c10Case, applies bool) {
 func TestC10(t *testing.T) {
 	k, n := shard()
 	idx := 0
-	for _, body := range c10Bodies {
-		for _, pf := range c10PatchForms {
-			for _, fs := range c10FileSets {
-				for _, lo := range c10Layouts {
-					for _, pk := range c10Pkgs {
-						for _, lk := range c10Kinds {
-							for _, sd := range c10Seconds {
-								if body != "" && (lo != "group" && lo != "singles-among" || sd != "none" && sd != "unsatisfied") {
-									continue // the other body shapes are crossed with two layouts and two second guards only
-								}
-								idx++
-								if idx%n != k {
-									continue
-								}
-								if pf == "absent" && pk == "absent" && sd == "none" {
-									continue // no guard at all
-								}
-								cs := &c10Case{PatchForm: pf, FileForms: fs, Layout: lo, Pkg: pk, LineKind: lk, Second: sd, Body: body}
-								sig, msg, applies := evalC10(cs)
-								c10Record(cs, applies)
-								if sig != "" {
-									violate(softFataler{t}, "C10", sig, msg, cs)
-									if t.Failed() {
-										return
+	for _, style := range c10Styles {
+		for _, spelling := range c10Spellings {
+			for _, body := range c10Bodies {
+				if (style != "" || spelling != "") && body != "" {
+					continue
+				}
+				for _, pf := range c10PatchForms {
+					for _, fs := range c10FileSets {
+						for _, lo := range c10Layouts {
+							for _, pk := range c10Pkgs {
+								for _, lk := range c10Kinds {
+									for _, sd := range c10Seconds {
+										if body != "" && (lo != "group" && lo != "singles-among" || sd != "none" && sd != "unsatisfied") {
+											continue // the other body shapes are crossed with two layouts and two second guards only
+										}
+										if (style != "" || spelling != "") && (lo != "group" && lo != "singles-among" || sd != "none" || pk != "absent" && pk != "same") {
+											continue // other path styles / spellings: two layouts, no second guard, two package cases
+										}
+										idx++
+										if idx%n != k {
+											continue
+										}
+										if pf == "absent" && pk == "absent" && sd == "none" {
+											continue // no guard at all
+										}
+										cs := &c10Case{PatchForm: pf, FileForms: fs, Layout: lo, Pkg: pk, LineKind: lk, Second: sd, Body: body, PathStyle: style, Spelling: spelling}
+										sig, msg, applies := evalC10(cs)
+										c10Record(cs, applies)
+										if sig != "" {
+											violate(softFataler{t}, "C10", sig, msg, cs)
+											if t.Failed() {
+												return
+											}
+										}
 									}
 								}
 							}
@@ -342,6 +410,8 @@ func TestC10(t *testing.T) {
 			LineKind:  rapid.SampledFrom(c10Kinds).Draw(rt, "lk"),
 			Second:    rapid.SampledFrom(c10Seconds).Draw(rt, "sd"),
 			Body:      rapid.SampledFrom(c10Bodies).Draw(rt, "body"),
+			PathStyle: rapid.SampledFrom(c10Styles).Draw(rt, "style"),
+			Spelling:  rapid.SampledFrom(c10Spellings).Draw(rt, "spelling"),
 		}
 		nExtra := rapid.IntRange(0, 5).Draw(rt, "nExtra")
 		for i := 0; i < nExtra; i++ {
